@@ -124,13 +124,16 @@ HARNESSES = [
             params={"quick": [{"nph": 1, "nel": 1, "ncls": 2, "infinite": True}, {"nph": 1, "nel": 1, "ncls": 2, "infinite": False},
                               {"nph": 2, "nel": 1, "ncls": 2, "infinite": True}, {"nph": 1, "nel": 2, "ncls": 3, "infinite": True}],
                     "thorough": [{"nph": 2, "nel": 2, "ncls": 3, "infinite": True}, {"nph": 1, "nel": 1, "ncls": 4, "infinite": True},
-                                 {"nph": 3, "nel": 1, "ncls": 2, "infinite": True}, {"nph": 2, "nel": 2, "ncls": 2, "infinite": False}]}),
+                                 {"nph": 3, "nel": 1, "ncls": 2, "infinite": True}, {"nph": 2, "nel": 2, "ncls": 2, "infinite": False},
+                                 {"nph": 3, "nel": 2, "ncls": 3, "infinite": True}, {"nph": 2, "nel": 3, "ncls": 4, "infinite": True},
+                                 {"nph": 1, "nel": 1, "ncls": 6, "infinite": False}]}),
     Harness("C01.append_is_balance", append_is_balance, functions=_F, assumptions=_A,
             stubs=["_calcNucleationRate, _growthRate: write fresh symbolic values into the fields they own (nucRate, drivingForce, xEqAlpha)",
                    "_updateParticleSizeDistribution, _processX: no-ops (C02/C08)"],
             opts={"ob_timeout": 40.0}, budget={"quick": 150.0, "thorough": 1500.0},
             params={"quick": [{"nph": 1, "nel": 1, "ncls": 2, "hist": 2}, {"nph": 2, "nel": 1, "ncls": 2, "hist": 1}],
-                    "thorough": [{"nph": 2, "nel": 2, "ncls": 2, "hist": 3}, {"nph": 1, "nel": 2, "ncls": 3, "hist": 2}]}),
+                    "thorough": [{"nph": 2, "nel": 2, "ncls": 2, "hist": 3}, {"nph": 1, "nel": 2, "ncls": 3, "hist": 2},
+                                 {"nph": 3, "nel": 2, "ncls": 3, "hist": 2}, {"nph": 2, "nel": 3, "ncls": 4, "hist": 4}]}),
 ]
 
 from harness.c01_extra import EXTRA as _EXTRA
